@@ -74,7 +74,7 @@ def model(prog):
         nonlocal now, dirty, failed, skipped, kind, ties
         ran.append(name)
         for x in b.get("do", []):
-            if x in ("logerr", "drop_failed", "expect_mismatch", "logerr2_flush1"):
+            if x in ("logerr", "logerr_new", "drop_failed", "expect_mismatch", "logerr2_flush1"):
                 dirty = True
             elif x == "logerr_flush":
                 pass  # logged and flushed by the test itself: clean
@@ -153,6 +153,12 @@ def build_case(prog, reactor, stagelog):
         for x in b.get("do", []):
             if x == "logerr":
                 tlog.err(ValueError("logged-" + name))
+            elif x == "logerr_new":
+                # the same through the twisted.logger API (what Twisted itself uses, e.g. for a delayed call
+                # that raises)
+                from twisted.logger import Logger
+                from twisted.python.failure import Failure
+                Logger(namespace="tvm.c14").failure("logged-" + name, Failure(ValueError("logged-" + name)))
             elif x == "drop_failed":
                 defer.fail(RuntimeError("dropped-" + name))
             elif x == "expect_mismatch":
@@ -449,7 +455,7 @@ PLAIN = {"end": "ret"}
 ENDS = [{"end": "raise"}, {"end": "fail"}, {"end": "skip"}, {"end": "fired"}, {"end": "failed"},
         {"end": "fire_at", "arg": 0.5}, {"end": "fail_at", "arg": 0.5}, {"end": "fire_at", "arg": 1.5},
         {"end": "never"},
-        {"end": "ret", "do": ["logerr"]}, {"end": "ret", "do": ["drop_failed"]},
+        {"end": "ret", "do": ["logerr"]}, {"end": "ret", "do": ["logerr_new"]}, {"end": "ret", "do": ["drop_failed"]},
         {"end": "ret", "do": ["leave_call:9"]}, {"end": "ret", "do": ["leave_chain"]},
         {"end": "ret", "do": ["expect_mismatch"]}, {"end": "fire_at", "arg": 0.5, "do": ["leave_call:0.2"]},
         {"end": "ret", "do": ["leave_call:0"]}, {"end": "ret", "do": ["logerr_flush"]},
@@ -485,7 +491,7 @@ def run(ctx):
                             continue
                         n += 1
                         ctx.execute("history", {"progs": [make([(slot, b)], T, tau, runner)]}, sample=(n % 307 == 0))
-    ctx.note_space("single non-trivial behaviour: 5 stages x 18 behaviours x 2 timeouts x 6 stop instants x 2 "
+    ctx.note_space("single non-trivial behaviour: 5 stages x 19 behaviours x 2 timeouts x 6 stop instants x 2 "
                    "runner variants", n, not ctx.quick)
     # double faults (no interrupts)
     n = 0
@@ -500,7 +506,7 @@ def run(ctx):
                         continue
                     n += 1
                     ctx.execute("history", {"progs": [make([(s1, b1), (s2, b2)], 2.0, None)]}, sample=(n % 307 == 0))
-    ctx.note_space("double non-trivial behaviours: 10 stage pairs x 18 x 18 behaviours, timeout 2.0", n, not ctx.quick)
+    ctx.note_space("double non-trivial behaviours: 10 stage pairs x 19 x 19 behaviours, timeout 2.0", n, not ctx.quick)
     # slow synchronous work that straddles the timeout AND the instant the test's Deferred fires (both
     # calls become due in one reactor pass, in time order), or that precedes an interrupt
     n = 0
